@@ -142,6 +142,7 @@ class CSSFontFaceRule(cssrule.CSSRule):
             newStyle.cssText = styletokens
 
             if ok:
+                self.atkeyword = self._tokenvalue(attoken)
                 # contains probably comments only (upto ``{``)
                 self._setSeq(newseq)
                 self.style = newStyle
